@@ -162,15 +162,17 @@ var registry = map[string]func(t *testing.T, c *Collector){
 	},
 	"C07": func(t *testing.T, c *Collector) {
 		c.res.Rule = "fsck (independent reader of every file format) on every quiescent state reached: after Flush against the live bucket table, after Close against snapshot and rescan; histories as in C04; non-trivial = a GC op mutated the file system"
-		c.withShare(0.4, func() { runSeqScenarios(c, gcScenarios("C07", c.job.Tier)) })
+		// cheapest part first: a share that is not used up is available to
+		// the parts after it
+		c.withShare(0.3, func() { runConcScenarios(t, c, c07ConcScenarios(c.job.Tier)) })
 		c.withShare(0.5, func() { runCrashScenarios(c, c03Scenarios("C07", c.job.Tier)) })
-		runConcScenarios(t, c, c07ConcScenarios(c.job.Tier))
+		runSeqScenarios(c, gcScenarios("C07", c.job.Tier))
 		c.res.Engine = "S + X + A (fsck on every quiescent state of the GC history enumeration, on every recovered crash image, and at quiescence of every interleaving of the C06 scenarios with one preemption less)"
 	},
 	"C13": func(t *testing.T, c *Collector) {
 		c.res.Rule = "freed-location ledger on every history of the C04 universe: the multiset of locations that stopped being current must equal the multiset of entries ever appended to the freelist (from the MemFS log) and, after a complete cycle, the multiset presented to the primary GC; non-trivial = at least one location was superseded"
-		c.withShare(0.6, func() { runSeqScenarios(c, gcScenarios("C13", c.job.Tier)) })
-		runConcScenarios(t, c, c13ConcScenarios(c.job.Tier))
+		c.withShare(0.4, func() { runConcScenarios(t, c, c13ConcScenarios(c.job.Tier)) })
+		runSeqScenarios(c, gcScenarios("C13", c.job.Tier))
 		c.res.Engine = "S + A (ledger oracle on every sequential GC history and on every interleaving of freelist Put / Flush / hand-over scenarios)"
 	},
 	"C04": func(t *testing.T, c *Collector) {
